@@ -56,6 +56,10 @@ type unit struct {
 	makeAction bool
 	// func() T { return <expr with calls> } is defunctionalised like the statement closures, as a VALUE closure (units_fsnew.go)
 	valueClosures bool
+	// `&T{...}` and `return &x` (x declared in the body being left) are ALLOCATIONS `(← goNew v)`: the primitives keep an object store
+	heap bool
+	// func-typed FIELDS of the receiver: `r.F(args)` is a call of the field's value `Call<n>.call (← recv_F) args` (nil: runtime panic)
+	funcFields map[string]bool
 }
 
 var units = map[string]*unit{
@@ -286,6 +290,11 @@ type tr struct {
 	litKeys []string // their names, for the apply function
 	litCaps [][]string
 	selfRec bool // the function calls itself: it gets a fuel parameter
+	// locals declared (:= / var) in the body being translated: each execution of the body has its own
+	declared map[string]bool
+	// inside a closure WITH a result (an "object closure", see objClosure): every `return e` is `return (e, <the closure as this call leaves it>)`
+	retWrap string
+	litRes  string // result type of this function's object closure ("" = none)
 }
 
 func (t *tr) ltype(e ast.Expr) string {
@@ -395,6 +404,9 @@ func (t *tr) expr(e ast.Expr) string {
 			return "(-" + t.atom(x.X) + ")"
 		case token.AND:
 			if cl, ok := x.X.(*ast.CompositeLit); ok {
+				if t.u.heap {
+					return "(← goNew " + t.composite(cl) + ")" // a fresh object
+				}
 				return t.composite(cl)
 			}
 			if id, ok := x.X.(*ast.Ident); ok && t.locals[id.Name] {
@@ -525,6 +537,9 @@ func (t *tr) expr(e ast.Expr) string {
 // closure: func() { statements } — becomes a generated definition over its captured variables plus a first-order
 // value naming it (the primitives decide what registering / running such a value means)
 func (t *tr) closure(fl *ast.FuncLit) string {
+	if t.litRes != "" || t.retWrap != "" {
+		bad(fl, "a closure next to / inside an object closure")
+	}
 	var caps []string
 	seen := map[string]bool{}
 	ast.Inspect(fl.Body, func(n ast.Node) bool {
@@ -534,7 +549,7 @@ func (t *tr) closure(fl *ast.FuncLit) string {
 		}
 		return true
 	})
-	sub := &tr{u: t.u, recvVar: t.recvVar, pkgs: t.pkgs, funcs: t.funcs, locals: map[string]bool{}, calls: t.calls, fname: t.fname}
+	sub := &tr{u: t.u, recvVar: t.recvVar, pkgs: t.pkgs, funcs: t.funcs, locals: map[string]bool{}, calls: t.calls, fname: t.fname, declared: map[string]bool{}}
 	var params []string
 	for _, c := range caps {
 		ty, ok := t.u.captures[c]
@@ -562,6 +577,59 @@ func (t *tr) closure(fl *ast.FuncLit) string {
 		vals = append(vals, lname(c))
 	}
 	return fmt.Sprintf("(Clo.mk \"%s\" [%s])", name, strings.Join(vals, ", "))
+}
+
+// objClosure: `return func() T { statements }` — the closure a constructor-of-constructors hands out.  The variables it
+// captures are reachable through it alone once its maker has returned (checked: it is the operand of a `return`, it is
+// the maker's only closure, `&` of a maker's variable is outside the subset), so the closure is a little object: a
+// first-order value (generated name + the CURRENT values of its captured variables), and applying it
+// (`go_<maker>_apply : Clo → M (T × Clo)`) gives its result AND the closure as the call leaves it — a write to a
+// captured variable inside the body is visible to the next call, exactly as in Go.
+func (t *tr) objClosure(fl *ast.FuncLit) string {
+	if len(fl.Type.Params.List) != 0 || fl.Type.Results == nil || len(fl.Type.Results.List) != 1 || len(fl.Type.Results.List[0].Names) != 0 {
+		bad(fl, "object closure signature")
+	}
+	if len(t.lits) != 0 || t.retWrap != "" || t.litRes != "" {
+		bad(fl, "more than one closure next to an object closure")
+	}
+	var caps []string
+	seen := map[string]bool{}
+	ast.Inspect(fl.Body, func(n ast.Node) bool {
+		if id, ok := n.(*ast.Ident); ok && t.locals[id.Name] && !seen[id.Name] {
+			seen[id.Name] = true
+			caps = append(caps, id.Name)
+		}
+		return true
+	})
+	name := fmt.Sprintf("%s_lit%d", t.fname, 1)
+	sub := &tr{u: t.u, recvVar: t.recvVar, pkgs: t.pkgs, funcs: t.funcs, locals: map[string]bool{}, calls: t.calls, fname: t.fname, declared: map[string]bool{}}
+	var params, vals, body []string
+	for _, c := range caps {
+		ty, ok := t.u.captures[c]
+		if !ok {
+			bad(fl, "closure captures "+c+", whose type is not listed")
+		}
+		sub.locals[c] = true
+		params = append(params, fmt.Sprintf("(%s : %s)", lname(c), ty))
+		vals = append(vals, lname(c))
+		body = append(body, fmt.Sprintf("  let mut %s := %s", lname(c), lname(c)))
+	}
+	self := fmt.Sprintf("Clo.mk \"%s\" [%s]", name, strings.Join(vals, ", "))
+	sub.retWrap = self
+	res := t.ltype(fl.Type.Results.List[0].Type)
+	sub.stmts(fl.Body.List, "  ", &body)
+	if n := len(fl.Body.List); n == 0 || !isReturn(fl.Body.List[n-1]) {
+		bad(fl, "value closure without a final return")
+	}
+	if len(sub.lits) > 0 {
+		bad(fl, "nested closures")
+	}
+	t.lits = append(t.lits, fmt.Sprintf("/-- closure #1 of %s (result, and the closure as the call leaves it): %s -/\ndef go_%s %s : %s (%s × Clo) := fn do\n%s\n",
+		t.fname, src(fl), name, strings.Join(params, " "), t.u.monad, res, strings.Join(body, "\n")))
+	t.litKeys = append(t.litKeys, name)
+	t.litCaps = append(t.litCaps, caps)
+	t.litRes = res
+	return "(" + self + ")"
 }
 
 func paren(s string) string {
@@ -739,6 +807,9 @@ func (t *tr) call(c *ast.CallExpr) string {
 				t.selfRec = true
 				return "(← go_" + path[0] + " fuel" + t.args(c.Args) + ")"
 			}
+			if len(path) == 1 && t.u.funcFields[path[0]] {
+				return fmt.Sprintf("(← Call%d.call (← recv_%s)%s)", len(c.Args), path[0], t.args(c.Args))
+			}
 			if len(path) == 1 && t.funcs[path[0]] {
 				t.calls[path[0]] = true
 				if t.u.recvParam != "" {
@@ -843,6 +914,7 @@ func (t *tr) stmt(s ast.Stmt, ind string, out *[]string) {
 			}
 			for _, n := range vs.Names {
 				t.locals[n.Name] = true
+				t.declared[n.Name] = true
 				t.emit(out, ind, fmt.Sprintf("let mut %s : %s := GoZero.zero", lname(n.Name), t.ltype(vs.Type)))
 			}
 		}
@@ -930,6 +1002,7 @@ func (t *tr) stmt(s ast.Stmt, ind string, out *[]string) {
 				t.emit(out, ind, "let _ := "+val)
 			case x.Tok == token.DEFINE && !t.locals[name]:
 				t.locals[name] = true
+				t.declared[name] = true
 				t.emit(out, ind, "let mut "+lname(name)+" := "+val)
 			case x.Tok == token.DEFINE:
 				t.emit(out, ind, lname(name)+" := "+val) // redeclared in a multi-assignment: same variable in this subset
@@ -1078,9 +1151,27 @@ func (t *tr) stmt(s ast.Stmt, ind string, out *[]string) {
 	case *ast.ReturnStmt:
 		switch len(x.Results) {
 		case 0:
+			if t.retWrap != "" {
+				bad(s, "bare return in a value closure")
+			}
 			t.emit(out, ind, "return ()")
 		case 1:
-			t.emit(out, ind, "return "+t.expr(x.Results[0]))
+			var val string
+			fl, isLit := x.Results[0].(*ast.FuncLit)
+			ue, isAddr := x.Results[0].(*ast.UnaryExpr)
+			switch {
+			case isLit && fl.Type.Results != nil && len(fl.Body.List) > 1:
+				val = t.objClosure(fl)
+			case isAddr && ue.Op == token.AND && t.u.heap && isDeclaredIdent(ue.X, t.declared):
+				// the address of a variable of the body being left: the variable outlives the call as a fresh object
+				val = "(← goNew " + lname(ue.X.(*ast.Ident).Name) + ")"
+			default:
+				val = t.expr(x.Results[0])
+			}
+			if t.retWrap != "" {
+				val = "(" + val + ", " + t.retWrap + ")"
+			}
+			t.emit(out, ind, "return "+val)
 		case 2:
 			t.emit(out, ind, "return ("+t.expr(x.Results[0])+", "+t.expr(x.Results[1])+")")
 		default:
@@ -1133,7 +1224,7 @@ type fnOut struct {
 }
 
 func (u *unit) translate(fd *ast.FuncDecl, pkgs, funcs map[string]bool) fnOut {
-	t := &tr{u: u, pkgs: pkgs, funcs: funcs, locals: map[string]bool{}, calls: map[string]bool{}, fname: fd.Name.Name}
+	t := &tr{u: u, pkgs: pkgs, funcs: funcs, locals: map[string]bool{}, calls: map[string]bool{}, fname: fd.Name.Name, declared: map[string]bool{}}
 	if fd.Recv != nil && len(fd.Recv.List) == 1 && len(fd.Recv.List[0].Names) == 1 {
 		t.recvVar = fd.Recv.List[0].Names[0].Name
 	}
@@ -1213,7 +1304,11 @@ func (u *unit) translate(fd *ast.FuncDecl, pkgs, funcs map[string]bool) fnOut {
 	text += head + "\n" + strings.Join(body, "\n") + "\n"
 	if len(t.litKeys) > 0 {
 		// running a closure value created by this function
-		text += fmt.Sprintf("\n/-- what running a closure value made by %s does -/\ndef go_%s_apply : Clo → %s Unit\n", fd.Name.Name, fd.Name.Name, u.monad)
+		applyRes := "Unit"
+		if t.litRes != "" {
+			applyRes = "(" + t.litRes + " × Clo)"
+		}
+		text += fmt.Sprintf("\n/-- what running a closure value made by %s does -/\ndef go_%s_apply : Clo → %s %s\n", fd.Name.Name, fd.Name.Name, u.monad, applyRes)
 		for i, k := range t.litKeys {
 			var pats, args []string
 			for _, c := range t.litCaps[i] {
@@ -1228,6 +1323,11 @@ func (u *unit) translate(fd *ast.FuncDecl, pkgs, funcs map[string]bool) fnOut {
 }
 
 func isReturn(s ast.Stmt) bool { _, ok := s.(*ast.ReturnStmt); return ok }
+
+func isDeclaredIdent(e ast.Expr, declared map[string]bool) bool {
+	id, ok := e.(*ast.Ident)
+	return ok && declared[id.Name]
+}
 
 func main() {
 	if len(os.Args) != 3 {
